@@ -79,8 +79,12 @@ Section RawRun.
   Qed.
 
   (* the file blocks Dpre, then the join on bn in a world whose hub is ready *)
-  Lemma join_raw w Dpre bn lowest burst k :
-    WOK U c w -> eventual_tip c w canon -> join_good U c merged w ->
+  Lemma join_raw_at w V Dpre bn lowest burst k :
+    WOK U c w -> eventual_tip c w canon ->
+    h_ready (w_hub w) = true -> VState U first kept (h_f (w_hub w)) V ->
+    (exists hd sufb l, hd_error V = Some hd /\ map eblk burst = bn :: sufb /\
+         Forall (fun e => matches_new (estep e) = true) burst /\
+         Forall (fun y => In y U) (bn :: sufb) /\ lnk (bid bn) sufb /\ bn :: sufb = l ++ [hd]) ->
     (exists x, lnk x (Dpre ++ [bn])) -> (forall b, In b (Dpre ++ [bn]) -> In b merged) ->
     (forall z r, Dpre ++ [bn] = z :: r -> bnum z <= start) ->
     join_try c w lowest (fev bn) = Some burst ->
@@ -89,14 +93,11 @@ Section RawRun.
     exists J, sfold [] X = Some J /\ (exists V, Rel V J) /\
       (w_rest (world_after c k w) = [] -> from_num start (rev J) = from_num start canon).
   Proof.
-    intros HW Htip Hjg [x0 HlD] Hin Hbot Ej X.
+    intros HW Htip Hrd HV (hd & sufb & l & Hhd & Hmap & Hnew & HbU & Hlsuf & Hlast) [x0 HlD] Hin Hbot Ej X.
     assert (Hbn : In bn merged) by (apply Hin; apply in_or_app; right; left; reflexivity).
     assert (HDU : Forall (fun y => In y U) Dpre).
     { apply Forall_forall. intros y Hy. apply Hmerged_U, Hin. apply in_or_app. left. exact Hy. }
-    destruct (Hjg lowest bn burst Hbn Ej) as [Hrd HJ].
     destruct HW as [Hok Hrest].
-    destruct (vstate_of_hub U first kept U_id U_uniq U_up D_decl (w_hub w) Hok Hrd) as [V HV].
-    destruct (HJ V HV) as (hd & sufb & l & Hhd & Hmap & Hnew & HbU & Hlsuf & Hlast).
     destruct (vstate_facts U first kept U_id U_uniq U_up (h_f (w_hub w)) V HV) as (HVne & HcV & _).
     destruct (join_rel_core U start V burst Dpre bn sufb l hd HVne HcV Hhd Hmap Hnew HbU Hlsuf Hlast
                 (ex_intro _ x0 HlD) HDU Hbot) as (J1 & HJ1 & HR).
@@ -125,6 +126,22 @@ Section RawRun.
       unfold X. rewrite app_assoc. split.
       + apply (disc_app U start [] J1 _ _ Hd); [rewrite Hf, EJ1; reflexivity | exact Hdl].
       + exists Jk. split; [rewrite sfold_app, Hf, <- EJ1; exact HJk|]. split; [exists (Vk ++ []); exact HRk | exact Hfin].
+  Qed.
+
+  Lemma join_raw w Dpre bn lowest burst k :
+    WOK U c w -> eventual_tip c w canon -> join_good U c merged w ->
+    (exists x, lnk x (Dpre ++ [bn])) -> (forall b, In b (Dpre ++ [bn]) -> In b merged) ->
+    (forall z r, Dpre ++ [bn] = z :: r -> bnum z <= start) ->
+    join_try c w lowest (fev bn) = Some burst ->
+    let X := map fev Dpre ++ burst ++ pushed c k w in
+    disc [] X /\
+    exists J, sfold [] X = Some J /\ (exists V, Rel V J) /\
+      (w_rest (world_after c k w) = [] -> from_num start (rev J) = from_num start canon).
+  Proof.
+    intros HW Htip Hjg Hl Hin Hbot Ej.
+    destruct (Hjg lowest bn burst) as [Hrd HJ]; [apply Hin; apply in_or_app; right; left; reflexivity | exact Ej|].
+    destruct (vstate_of_hub U first kept U_id U_uniq U_up D_decl (w_hub w) (proj1 HW) Hrd) as [V HV].
+    exact (join_raw_at w V Dpre bn lowest burst k HW Htip Hrd HV (HJ V HV) Hl Hin Hbot Ej).
   Qed.
 
   (* live from the start: the hub answers the start block number *)
